@@ -24,6 +24,39 @@ func (emptyQuerier) SelectLogs(ctx context.Context, start, end otelstorage.Times
 
 // probeCmd: developer tool — parse and evaluate queries given as arguments over an empty store.
 func probeCmd(args []string) {
+	if len(args) > 0 && args[0] == "c05rt" {
+		d, err := StartDriver("/verif/lean/.lake/build/bin/driver")
+		if err != nil {
+			fatal("driver: %v", err)
+		}
+		r := rand.New(rand.NewSource(11))
+		hist := map[string]int{}
+		ex := map[string]string{}
+		var reqs []Sexp
+		var texts []string
+		for i := 0; i < 30000; i++ {
+			c := c05Gen(r)
+			q := c05Req(c)
+			if q.Head() != "parse" {
+				continue
+			}
+			q.List[0] = A("c05rt")
+			reqs = append(reqs, q)
+			texts = append(texts, c.Canon)
+		}
+		out, err := d.AskBatch(reqs)
+		if err != nil {
+			fatal("%v", err)
+		}
+		for i, o := range out {
+			hist[o.String()]++
+			ex[o.String()] = texts[i]
+		}
+		for k, v := range hist {
+			fmt.Printf("%6d %s\n        %s\n", v, k, ex[k])
+		}
+		return
+	}
 	if len(args) > 0 && args[0] == "c05rej" {
 		r := rand.New(rand.NewSource(7))
 		hist := map[string]int{}
